@@ -219,7 +219,7 @@ fn c18_side(white: bool) {
     let board = plain_board(&x);
     let m = player_material_score(&board, color(white));
     assert!(m >= 19000 && m <= 30600, "per-side material+bonus stays within [19000, 30600] for any legal material");
-    kani::cover!(s[rf::Q].count_ones() == 9, "nine queens reachable");
+    crate::vcover!(s[rf::Q].count_ones() == 9, "nine queens reachable");
     core::mem::forget(board);
 }
 #[kani::proof]
